@@ -73,13 +73,44 @@ func checkC01(c *Check) {
 	c.floor("envelope formats", 2, len(fmts))
 	for _, f := range fmts {
 		content := f.method("Content")
+		// Content may be a presence guard in front of an unguarded helper that does the work; Verify,
+		// having made the same test, may call that helper directly: it is "Content" all the same
+		core := ""
+		if cpg := c.skeleton(content); cpg != nil {
+			names := map[string]bool{}
+			for _, s := range returnsWhere(cpg, func(s *PState) bool { return retNilErr(s, 1) }) {
+				k := retKey(s, 0)
+				if strings.HasSuffix(k, "(recv)#0") {
+					names[strings.TrimSuffix(k, "(recv)#0")] = true
+				} else {
+					names["?"] = true
+				}
+			}
+			if len(names) == 1 {
+				for n := range names {
+					if n != "?" && c.P.fn(n) != nil {
+						core = n
+					}
+				}
+			}
+		}
 		pg := c.pgOfNI(f.method("Verify"), content)
+		if core != "" {
+			pg = c.pgOfNI(f.method("Verify"), content, core)
+		}
 		if pg == nil {
 			continue
 		}
 		ok := returnsWhere(pg, func(s *PState) bool { return retNilErr(s, 1) })
 		c.floor(f.name+" Verify success returns", 1, len(ok))
 		inner := content + "(recv)"
+		if core != "" {
+			for _, s := range ok {
+				if retKey(s, 0) == core+"(recv)#0" {
+					inner = core + "(recv)"
+				}
+			}
+		}
 		// (1)
 		good := len(ok) > 0
 		for _, s := range ok {
